@@ -287,4 +287,11 @@ def run(ctx: Ctx, rep: Report, tier: str):
     c.a4()
     c.a5_a7()
     c.a8_a9()
+    rep.rule("C17.A10", "the default ageing interval is a positive fraction of the larger provider poll interval (max(sleep) / k, k >= 1)", expect_min=1)
+    init = ctx.prog.func("SyncManager.__init__")
+    asg = [n for n in ctx.own_nodes(init) if isinstance(n, ast.Assign) and pat.match("self.aging", n.targets[0]) is not None]
+    mx = {n.targets[0].id for n in ctx.own_nodes(init) if isinstance(n, ast.Assign) and isinstance(n.targets[0], ast.Name) and pat.match("max(sleep)", n.value) is not None}
+    good = len(asg) == 1 and isinstance(asg[0].value, ast.BinOp) and isinstance(asg[0].value.op, ast.Div) and isinstance(asg[0].value.left, ast.Name) and asg[0].value.left.id in mx \
+        and isinstance(asg[0].value.right, ast.Constant) and asg[0].value.right.value >= 1
+    rep.check("C17.A10", "SyncManager.__init__|aging", init, good, "aging = max(sleep) / k", "the default ageing interval is no longer max(sleep) / k with k >= 1", nontrivial=False)
     rep.assume("time.time() is the clock the property's 'now' refers to")
